@@ -426,3 +426,58 @@ def table_io(ck, F):
     ck.ob(R, "quote-prefix|display-and-input-agree", reads_qp and strips,
           "quote prefix: display side reads style.quote_prefix=%s, input side strips the apostrophe and sets the quote-prefix style=%s" % (reads_qp, strips),
           su.file, su.line, sample={"display_reads_quote_prefix": reads_qp, "input_sets_quote_prefix": strips})
+
+
+def content_not_display(ck, F, rule="CONTENT-TEXT"):
+    """The text offered for editing is never a display rendering that may be an error string: in
+    Model::get_localized_cell_content (a) the `.text` of a format_number result is only read where its `.error` was
+    tested to be None, and (b) no display function (get_formatted_cell_value, formatted_value) feeds the result."""
+    from effects import Program
+    P = Program(F)
+    b = ck.need(F.one, "model::Model::get_localized_cell_content")
+    display = set(F.find("model::Model::get_formatted_cell_value")) | set(F.find("Cell::formatted_value"))
+    bad_calls = [(bi, b.callee_q(t)) for bi, t in b.calls() if b.callee(t) in F.heads and (b.callee(t) in display or P.reaches(b.callee(t), display))]
+    ck.ob(rule, "get_localized_cell_content|no-display-function", not bad_calls,
+          "get_localized_cell_content calls %s: the editor would be offered display text (e.g. #VALUE! for an unrenderable date), which does not parse back to the stored value"
+          % (bad_calls[0][1] if bad_calls else ""), b.file, b.loc(bad_calls[0][0])[1] if bad_calls else b.line)
+    fmts = b.calls_to("formatter::format::format_number")
+    ck.ob(rule, "get_localized_cell_content|format_number-sites", len(fmts) >= 1, "no format_number call found (anchor lost?)", b.file, b.line)
+    for bi, t in fmts:
+        if place_proj(t["dest"]):
+            continue
+        d = t["dest"]["l"]
+        # None-edges of tests of d.error
+        none_edges = []
+        for sb, blk in enumerate(b.blocks):
+            tt = blk["t"]
+            if tt["k"] != "switch":
+                continue
+            for s in blk["s"]:
+                if s["rv"]["k"] == "discr":
+                    rp = b.resolve_place(s["rv"]["p"])
+                    pj = place_proj(rp)
+                    if rp["l"] == d and pj and pj[0][0] == "f" and pj[0][2] == "error":
+                        for v, tg in tt["targets"]:
+                            if v == "0" and len(b.preds(tg)) == 1:
+                                none_edges.append(tg)
+            # `formatted.error.is_none()` call form
+        for cb, ct in b.calls():
+            if (b.callee_q(ct) or "").endswith("Option::is_none") and ct["args"]:
+                rt = b.ref_target(ct["args"][0])
+                if rt is not None and rt["l"] == d and place_proj(rt) and place_proj(rt)[0][2] == "error":
+                    nb = ct.get("to")
+                    if nb is not None and b.blocks[nb]["t"]["k"] == "switch":
+                        st = b.blocks[nb]["t"]
+                        if len(b.preds(st["otherwise"])) == 1:
+                            none_edges.append(st["otherwise"])
+        k = 0
+        for rb, si, s in b.stmts():
+            from mir import rvalue_places
+            for pl in rvalue_places(s["rv"]):
+                pj = place_proj(pl)
+                if pl["l"] == d and pj and pj[0][0] == "f" and pj[0][2] == "text":
+                    k += 1
+                    f, l = b.loc(rb, si)
+                    ck.ob(rule, "get_localized_cell_content|text-read-after-error-check#%d" % k, any(b.dominates(e, rb) for e in none_edges),
+                          "the formatter's text is used as cell content without checking that formatting succeeded", f, l)
+        ck.ob(rule, "get_localized_cell_content|text-read", k >= 1, "format_number result is never read (anchor lost?)", b.file, b.line)
